@@ -34,6 +34,9 @@ lock methods and break_lock; (K4 call ownership) lock_read/lock_write/unlock of 
 only from those methods; (count lint) the counters are compared only with the constants 0 and 1, which makes depth 4
 representative of all depths. Calls on other objects are neutral (listed in evidence); branching on their results is
 an analysis error, not a guess.
+Added while testing against seeded changes: K8-failed-release-forgets: a failing physical unlock on the last unlock
+propagates and leaves CountedLock / LockableFiles unlocked; K3-acquisition-unwinds: DirStateWorkingTree.lock_read /
+_lock_self_write release the control-files lock and the branch when a later acquisition step fails.
 Does not decide: Repository/Branch/WorkingTree objects built on these wrappers (they delegate), nor failures of the
 unrelated calls made while locking.
 """
